@@ -5,12 +5,49 @@
 //! random options, task subsets and orders; contents, row ids, versions and index answers before/after;
 //! blob arm (blob.rs): finding B1 (class blob_null_first_row_allbinary).
 //! `model.rs` is a copy of hx_c05/model.rs (mirror of Table/Model_Manifest.v), kept private to this binary.
+//!
+//! `--plant <where>` (never set by checks.d) makes the harness RECORD a wrong implementation output once, to
+//! demonstrate that the check detects it: plan | task | remap | commit | transpose | build | oracle.
 mod blob;
+mod e2e;
 mod model;
+mod tbl;
+mod unit;
+
+static PLANT: std::sync::OnceLock<String> = std::sync::OnceLock::new();
+pub fn plant() -> &'static str {
+    PLANT.get().map(|s| s.as_str()).unwrap_or("")
+}
 
 fn main() {
     let (sub, args) = hxlib::util::Args::parse();
+    let mut it = args.rest.iter();
+    while let Some(a) = it.next() {
+        if a == "--plant" {
+            let _ = PLANT.set(it.next().cloned().unwrap_or_default());
+        }
+    }
     let code = match sub.as_str() {
+        "c13" => {
+            let mut sink = hxlib::util::Sink::new("C13", &args.out);
+            let mut rng = hxlib::util::Rng::new(args.seed);
+            if !plant().is_empty() {
+                sink.notes.push(format!("PLANTED BREAKAGE ACTIVE: {}", plant()));
+            }
+            let only = |k: &str| !args.rest.iter().any(|a| a.starts_with("--only")) || args.rest.iter().any(|a| a == &format!("--only-{k}"));
+            if only("unit") {
+                unit::run_transpose(&args, &mut sink, &mut rng.fork());
+                unit::run_build(&args, &mut sink, &mut rng.fork());
+            }
+            if only("e2e") {
+                e2e::run(&args, &mut sink, &mut rng.fork());
+            }
+            if only("blob") {
+                blob::run(&args, &mut sink, &mut rng.fork());
+            }
+            sink.finish();
+            0
+        }
         "probe-blob" => {
             blob::probe();
             0
